@@ -60,6 +60,224 @@ class _Desugar(ast.NodeTransformer):
         return self._split(node, node.value, lambda v: ast.Return(value=v))
 
 
+# methods whose body is analysed with the helper methods of their own class expanded in place (extract-method refactorings of these
+# functions must not hide the obligation sites from the rules that are phrased over their flow graph)
+INLINE_HOSTS = {('DocTest', 'run')}
+
+
+class _Rename(ast.NodeTransformer):
+    def __init__(self, mapping):
+        self.mapping = mapping
+
+    def visit_Name(self, node):
+        if node.id in self.mapping:
+            return ast.copy_location(ast.Name(id=self.mapping[node.id], ctx=node.ctx), node)
+        return node
+
+    def visit_FunctionDef(self, node):
+        return node        # nested scopes are left alone (a helper with nested functions is not inlined at all)
+    visit_AsyncFunctionDef = visit_FunctionDef
+    visit_Lambda = visit_FunctionDef
+
+
+def _always_leaves(stmts):
+    """the statement list ends every path with return / raise / continue / break"""
+    if not stmts:
+        return False
+    last = stmts[-1]
+    if isinstance(last, (ast.Return, ast.Raise)):
+        return True
+    if isinstance(last, ast.If):
+        return _always_leaves(last.body) and _always_leaves(last.orelse)
+    return False
+
+
+def _has_return(stmts):
+    return any(isinstance(x, ast.Return) for st in stmts for x in ast.walk(st))
+
+
+def _structure_returns(stmts, make_result):
+    """rewrite a statement list so that `return v` becomes `<result> = v` and control falls to the end of the list instead of leaving it:
+    statements that follow a conditional return are moved into the branches that did not return.  Raises ValueError for shapes that are not
+    handled (a return inside a loop, try or with)."""
+    import copy
+    out = []
+    for i, st in enumerate(stmts):
+        rest = stmts[i + 1:]
+        if isinstance(st, ast.Return):
+            out += make_result(st)
+            return out      # what follows is dead
+        if isinstance(st, ast.If) and (_has_return(st.body) or _has_return(st.orelse)):
+            body_leaves, else_leaves = _always_leaves(st.body), _always_leaves(st.orelse)
+            nb = st.body if body_leaves or not rest else st.body + copy.deepcopy(rest)
+            ne = st.orelse if else_leaves or not rest else st.orelse + copy.deepcopy(rest)
+            new = ast.copy_location(ast.If(test=st.test, body=_structure_returns(nb, make_result) or [ast.copy_location(ast.Pass(), st)],
+                                           orelse=_structure_returns(ne, make_result)), st)
+            if getattr(st, '_desugared', False):
+                new._desugared = True
+            out.append(new)
+            return out
+        if isinstance(st, (ast.For, ast.While, ast.Try, ast.With, ast.AsyncFor, ast.AsyncWith)) and _has_return([st]):
+            raise ValueError('return inside %s' % type(st).__name__)
+        out.append(st)
+    return out
+
+
+class _InlineMethods:
+    """expand `x = self.helper(...)`, `self.helper(...)` and `return self.helper(...)` inside the INLINE_HOSTS by the body of the helper method
+    of the same class (parameters bound by assignment, locals renamed, returns turned into assignments); two levels deep"""
+
+    def __init__(self, tree):
+        self.tree = tree
+        self.counter = 0
+
+    def run(self):
+        for cls in [n for n in self.tree.body if isinstance(n, ast.ClassDef)]:
+            methods = {m.name: m for m in cls.body if isinstance(m, (ast.FunctionDef,))}
+            for (cname, mname) in INLINE_HOSTS:
+                if cls.name == cname and mname in methods:
+                    host = methods[mname]
+                    for _ in range(2):
+                        host.body = self._block(host.body, host, methods)
+
+    ROLE_BUILTINS = {'exec', 'eval', 'compile'}
+    ROLE_FIELDS = {'exc_info', 'failed_tb_lineno', 'failed_part', 'logged_stdout', 'logged_evals', '_runstate', '_skipped_parts', '_unmatched_stdout', '_partfilename'}
+    ROLE_CALLS = {'check', 'check_exception', 'check_got_vs_want'}
+
+    def _carries_obligation_sites(self, m):
+        """the helper executes doctest code, compares output or writes one of the per-run fields the rules of DocTest.run reason about"""
+        for x in ast.walk(m):
+            if isinstance(x, ast.Call) and isinstance(x.func, ast.Name) and x.func.id in self.ROLE_BUILTINS:
+                return True
+            if isinstance(x, ast.Call) and isinstance(x.func, ast.Attribute) and x.func.attr in self.ROLE_CALLS:
+                return True
+            if isinstance(x, ast.Attribute) and isinstance(x.ctx, ast.Store) and x.attr in self.ROLE_FIELDS:
+                return True
+        return False
+
+    def _eligible(self, host, m):
+        if m is host or m.decorator_list or m.args.vararg or m.args.kwarg or len(m.body) > 80:
+            return False
+        if not self._carries_obligation_sites(m):
+            return False
+        for x in ast.walk(m):
+            if isinstance(x, (ast.Yield, ast.YieldFrom, ast.Await, ast.Global, ast.Nonlocal)):
+                return False
+            if x is not m and isinstance(x, (ast.FunctionDef, ast.AsyncFunctionDef, ast.Lambda, ast.ClassDef)):
+                return False
+        return True
+
+    def _block(self, stmts, host, methods):
+        out = []
+        for st in stmts:
+            for fld in ('body', 'orelse', 'finalbody'):
+                if isinstance(getattr(st, fld, None), list) and not isinstance(st, (ast.FunctionDef, ast.AsyncFunctionDef, ast.ClassDef)):
+                    setattr(st, fld, self._block(getattr(st, fld), host, methods))
+            if isinstance(st, ast.Try):
+                for h in st.handlers:
+                    h.body = self._block(h.body, host, methods)
+            call, target = None, None
+            if isinstance(st, ast.Assign) and len(st.targets) == 1 and isinstance(st.value, ast.Call):
+                call, target = st.value, st.targets[0]
+            elif isinstance(st, ast.Expr) and isinstance(st.value, ast.Call):
+                call = st.value
+            if call is not None and isinstance(call.func, ast.Attribute) and isinstance(call.func.value, ast.Name) and host.args.args \
+                    and call.func.value.id == host.args.args[0].arg and call.func.attr in methods and self._eligible(host, methods[call.func.attr]):
+                try:
+                    out += self._expand(st, call, target, host, methods[call.func.attr])
+                    continue
+                except ValueError:
+                    pass
+            out.append(st)
+        return out
+
+    def _expand(self, st, call, target, host, m):
+        import copy
+        if any(isinstance(a, ast.Starred) for a in call.args) or any(k.arg is None for k in call.keywords):
+            raise ValueError('star arguments')
+        self.counter += 1
+        tag = '__%s_%d_' % (m.name.strip('_'), self.counter)
+        params = [a.arg for a in m.args.posonlyargs + m.args.args] + [a.arg for a in m.args.kwonlyargs]
+        recv_m = params[0]
+        recv_h = host.args.args[0].arg
+        bound = {}
+        pos = params[1:len(m.args.posonlyargs + m.args.args)]
+        for p_, a in zip(pos, call.args):
+            bound[p_] = a
+        if len(call.args) > len(pos):
+            raise ValueError('too many arguments')
+        for k in call.keywords:
+            if k.arg not in params or k.arg in bound:
+                raise ValueError('unknown keyword')
+            bound[k.arg] = k.value
+        defaults = dict(zip([a.arg for a in (m.args.posonlyargs + m.args.args)][-len(m.args.defaults):] if m.args.defaults else [], m.args.defaults))
+        defaults.update({a.arg: d for a, d in zip(m.args.kwonlyargs, m.args.kw_defaults) if d is not None})
+        for p_ in params[1:]:
+            if p_ not in bound:
+                if p_ not in defaults:
+                    raise ValueError('unbound parameter')
+                bound[p_] = copy.deepcopy(defaults[p_])
+        body = [copy.deepcopy(x) for x in m.body if not (isinstance(x, ast.Expr) and isinstance(x.value, ast.Constant) and isinstance(x.value.value, str))]
+        stored = {x.id for b in body for x in ast.walk(b) if isinstance(x, ast.Name) and isinstance(x.ctx, (ast.Store, ast.Del))}
+        for b in body:
+            for x in ast.walk(b):
+                if isinstance(x, ast.ExceptHandler) and x.name:
+                    stored.add(x.name)
+        mapping = {recv_m: recv_h}
+        pre = []
+        for p_ in params[1:]:
+            a = bound[p_]
+            if isinstance(a, ast.Name) and a.id == p_ and p_ not in stored:
+                continue            # identity binding of a name the helper never rebinds
+            mapping[p_] = tag + p_
+            asg = ast.Assign(targets=[ast.Name(id=tag + p_, ctx=ast.Store())], value=a, type_comment=None)
+            pre.append(ast.copy_location(asg, st))
+        for nm in stored:
+            if nm not in mapping:
+                mapping[nm] = tag + nm
+        ren = _Rename(mapping)
+        body = [ren.visit(b) for b in body]
+        for b in body:
+            for x in ast.walk(b):
+                if isinstance(x, ast.ExceptHandler) and x.name in mapping:
+                    x.name = mapping[x.name]
+
+        def make_result(ret):
+            if target is None:
+                if ret.value is None:
+                    return [ast.copy_location(ast.Pass(), ret)]
+                return [ast.copy_location(ast.Expr(value=ret.value), ret)]
+            v = ret.value if ret.value is not None else ast.copy_location(ast.Constant(value=None), ret)
+            return [ast.copy_location(ast.Assign(targets=[copy.deepcopy(target)], value=v, type_comment=None), ret)]
+        new_body = _structure_returns(body, make_result)
+        if target is not None and not _always_assigns(new_body):
+            # falling off the end of the helper returns None
+            new_body.append(ast.copy_location(ast.Assign(targets=[copy.deepcopy(target)], value=ast.Constant(value=None), type_comment=None), st)) if not _has_tail_assign(new_body) else None
+        res = pre + new_body
+        for x in res:
+            x._inlined_from = m.name
+            ast.fix_missing_locations(x)
+        return res or [ast.copy_location(ast.Pass(), st)]
+
+
+def _has_tail_assign(stmts):
+    return False
+
+
+def _always_assigns(stmts):
+    """conservative: the rewritten body ends every path by the result assignment (it came from `return v` in tail position)"""
+    if not stmts:
+        return False
+    last = stmts[-1]
+    if isinstance(last, ast.Assign):
+        return True
+    if isinstance(last, ast.Raise):
+        return True
+    if isinstance(last, ast.If):
+        return _always_assigns(last.body) and _always_assigns(last.orelse)
+    return False
+
+
 class Module:
     def __init__(self, name, relpath, src, reuse=None):
         self.name = name
@@ -76,6 +294,9 @@ class Module:
             return
         self.lines = src.splitlines()
         self.tree = ast.fix_missing_locations(_Desugar().visit(ast.parse(src, filename=relpath)))
+        if any(isinstance(n, ast.ClassDef) and any(n.name == c for (c, _m) in INLINE_HOSTS) for n in self.tree.body):
+            _InlineMethods(self.tree).run()
+            ast.fix_missing_locations(self.tree)
         self.imports = {}      # local name -> ('mod', dotted) | ('sym', dotted_module, symbol)
         self.funcs = {}        # top-level name -> Func
         self.classes = {}      # top-level name -> ClassInfo
